@@ -161,10 +161,10 @@ Fixpoint rank_bucket (rank : Q) (r : ext) (cum : Q) (bs : list bucket) : bool :=
       || rank_bucket rank r (cum + bc b) rest
   end.
 
-(* a histogram with NaN observations: as wf_hist but sum NaN and count >= sum of the buckets *)
+(* a histogram with NaN observations: as wf_hist but sum NaN and count >= sum of the buckets > 0 *)
 Definition wfn_hist (h : hist) : bool :=
   Qlt_bool 0 (h_count h) && sum_nan h &&
-  Qle_bool (sumc (h_buckets h)) (h_count h) &&
+  Qle_bool (sumc (h_buckets h)) (h_count h) && Qlt_bool 0 (sumc (h_buckets h)) &&
   forallb (fun b => Qle_bool 0 (bc b) && ext_ltb (bl b) (bu b)) (h_buckets h) &&
   sorted_bk (h_buckets h) &&
   negb (existsb (fun b => is_ninf (bl b) && is_pinf (bu b)) (h_buckets h)).
